@@ -358,6 +358,7 @@ func (e *Engine) chanSend(ch *chanObj, v value) {
 	}
 	w := &waiter{th: e.cur, cases: []selCase{{ch, true, v}}}
 	ch.sendq = append(ch.sendq, w)
+	e.hbRelease(ch) // the value may be taken by a receiver while this sender is parked
 	e.block(func() bool { return w.done || ch.closed }, "chan send")
 	e.hbAcquire(ch)
 	if !w.done && ch.closed {
@@ -455,6 +456,7 @@ func (e *Engine) selectInstr(fr *frame, in *ssa.Select) value {
 		}
 		if c.send {
 			c.ch.sendq = append(c.ch.sendq, w)
+			e.hbRelease(c.ch)
 		} else {
 			c.ch.recvq = append(c.ch.recvq, w)
 		}
@@ -569,7 +571,12 @@ func (e *Engine) preemptHere() bool {
 	if e.curInstr == nil || e.curInstr.Parent() == nil {
 		return false
 	}
-	fn := e.curInstr.Parent()
+	return e.preemptHereFn(e.curInstr.Parent())
+}
+
+// preemptHereFn: fn belongs to repository code proper (not to a harness file,
+// not to the intrinsics package).
+func (e *Engine) preemptHereFn(fn *ssa.Function) bool {
 	if v, ok := e.preemptOK[fn]; ok {
 		return v
 	}
